@@ -986,6 +986,18 @@ def idiom_misc(facts, s):
             cb = op_const(o[1]["args"][1])
             if cb is not None and cb.get("int") == 18446744073709551615:
                 return "I-budget: run_count(usize::MAX) returns Ok(None) only after 2^64-1 instructions"
+    if s.kind == "call:ratio" and re.search(r"ops::(Div|Rem)>::(div|rem)", s.what) and len(t.get("args", [])) > 1:
+        # an arbitrary-precision quotient whose divisor is Number::to_big_rational(y), on an edge where Number::is_zero(y)
+        # was false: the conversion preserves the value, so the divisor is not zero
+        from ..shapes import roots, shape
+        dv = t["args"][1]
+        if "to_big_rational" in shape(f, dv, 4):
+            rd = roots(f, dv, 6)
+            for g_bb, cond, taken, gt in dominating_guards(f, s.bb):
+                go = f.origin(cond)
+                if go[0] == "call" and (callee(go[1]) or "").endswith("Number::is_zero") and taken == 0 and \
+                        roots(f, go[1]["args"][0], 6) & rd:
+                    return "I-zero: the divisor is to_big_rational(y) on an edge where y.is_zero() was false"
     if s.kind == "call:string-edit" and s.what.endswith("insert_str"):
         c = op_const(t["args"][1])
         if c is not None and c.get("int") == 0:
@@ -1656,7 +1668,7 @@ def _cycles_without_progress(f):
         incs = {}
         for bb, j, st in f.stmts():
             rv = st["rv"]
-            if bb in body and rv["k"] == "bin" and rv["op"] in ("Add", "AddWithOverflow", "AddUnchecked"):
+            if bb in body and rv["k"] == "bin" and rv["op"] in ("Add", "AddWithOverflow", "AddUnchecked", "Sub", "SubWithOverflow", "SubUnchecked"):
                 pa, cb = op_place(rv["a"]), op_const(rv["b"])
                 if pa is not None and not pa["p"] and cb is not None and cb.get("int", 0) > 0:
                     incs[st["lhs"]["l"]] = pa["l"]
@@ -1672,7 +1684,7 @@ def _cycles_without_progress(f):
             if t["k"] != "switch":
                 continue
             o = f.origin(t["op"])
-            if o[0] != "rv" or o[1]["rv"]["k"] != "bin" or o[1]["rv"]["op"] not in ("Gt", "Ge", "Lt", "Le"):
+            if o[0] != "rv" or o[1]["rv"]["k"] != "bin" or o[1]["rv"]["op"] not in ("Gt", "Ge", "Lt", "Le", "Eq", "Ne"):
                 continue
             sides = []
             for side in ("a", "b"):
@@ -1709,7 +1721,7 @@ def r06j(ctx, rep, rule="R06j"):
              "start over, so the 'nothing consumed' test never saw an unchanged state). In every function of the transform "
              "module, every cycle of every loop passes a block that makes progress: a call of Iterator::next (the loop walks a "
              "finite sequence), a pop from a worklist of references into a Cell (an owned tree: what is pushed are children of "
-             "the popped node), or the exit test of a counter that the loop only increments (compared with < <= > >=, one edge "
+             "the popped node), or the exit test of a counter that the loop only steps by a constant (compared, one edge "
              "leaving the loop). Decided: the shape of the cycles; that the bound itself is finite is read off the code "
              "(Vec::len of the matches).")
     n = 0
